@@ -181,6 +181,46 @@ def nets_ref(net, arrays):
     return nets.refeval(n2, arrays)
 
 
+def container_forms(run, ct, rng):
+    """an explicit path handed over in every container form (list / tuple of tuples / lists): the cached entry points
+    must answer exactly like the uncached ones (a form the cache cannot hash must simply not be cached)"""
+    from cotengra import interface
+    net = nets.Net([[1, 2], [2, 3], [3, 4]], [1, 4], [2, 3, 2, 3])
+    inp, out, size = net.c_inputs(), net.c_output(), net.c_sizes()
+    arrays = arrays_for(net, rng)
+    ref = nets.refeval(net, arrays)
+    forms = {"list-of-tuples": [(0, 1), (0, 1)], "list-of-lists": [[0, 1], [0, 1]], "tuple-of-tuples": ((0, 1), (0, 1)),
+             "tuple-of-lists": ([0, 1], [0, 1]), "list-of-tuples-2": [(1, 2), (0, 1)], "tuple-of-lists-2": ([1, 2], [0, 1])}
+    import warnings
+    for name, opt in forms.items():
+        for entry in ("array_contract_path", "array_contract_expression", "array_contract"):
+            interface._PATH_CACHE.clear()
+            interface._CONTRACT_EXPR_CACHE.clear()
+            d = {"form": name, "entry": entry, "optimize": repr(opt)}
+            run.count()
+            run.nontrivial(("container-form", name, entry))
+            res = {}
+            for cached in (True, True, False):
+                try:
+                    with warnings.catch_warnings():
+                        warnings.simplefilter("ignore")
+                        if entry == "array_contract_path":
+                            r = tuple(map(tuple, ct.array_contract_path(inp, out, size, optimize=opt, cache=cached)))
+                        elif entry == "array_contract_expression":
+                            r = value_of(ct.array_contract_expression(inp, out, size, optimize=opt, cache=cached)(*arrays)).tolist()
+                        else:
+                            r = value_of(ct.array_contract(arrays, inp, out, optimize=opt, cache_expression=cached)).tolist()
+                except Exception as e:
+                    r = "raised " + core.exc_text(e)
+                res.setdefault(cached, []).append(r)
+            if any(x != res[False][0] for x in res[True]):
+                run.violation(f"{entry} with the explicit path {opt!r} ({name}): with caching on -> {res[True]}, with caching off -> "
+                              f"{res[False][0]}", d, tags={"container-form", name, entry})
+            elif entry != "array_contract_path" and not isinstance(res[False][0], str) and \
+                    not np.allclose(np.asarray(res[False][0]), ref):
+                run.violation(f"{entry} with the explicit path {opt!r}: wrong value", d, tags={"container-form", name, entry, "value"})
+
+
 def object_histories(run, ct, rng, count):
     from cotengra import interface
     pool = [n for n in nets.net_pool(rng, 30, nmin=3, nmax=5, weird=False) if n.K >= 2 and nets.connected(n)][:10]
@@ -312,6 +352,7 @@ def run(run):
     # an explicit ContractionTree (or optimizer object) as `optimize`, changed in place between calls; constants changed in
     # place between two builds of an expression: the cached entry points must answer like the uncached ones
     object_histories(run, ct, rng, 12 if quick else 120)
+    container_forms(run, ct, rng)
     # labels with colliding hashes, not canonicalised: every sequence of length 3 over the two calls
     cpool = collision_pool()
     for entry in ("array_contract", "array_contract_expression", "array_contract_path", "expression_with_constants"):
